@@ -14,5 +14,8 @@ CONSTANTS
   BodyForms = {"plain", "fstr_i32", "fstr_bool", "fstr_string", "strcmp", "let_if", "match", "helper_call", "list_ops", "fstr_option", "fstr_record", "fstr_list"}
   FnPositions = {"first", "last", "mixed"}
   NoDups = TRUE
+  ModShapes = {"single", "sub"}
+  SubFnNames = {}
+  RunMods = {""}
 INVARIANTS MCInv Emit
 CHECK_DEADLOCK FALSE
